@@ -492,8 +492,8 @@ pub fn run(run: &Run) {
     run.set_rule("core", "DhtRequestWrapper (FindNode count 0/20/21/usize::MAX, Store 0/512/513/60000 bytes, FindValue, Retrieve) serialised, mutated, decoded and handled on tables of 0..59 nodes; DhtRecord serialise/mutate/deserialise; non-trivial = mutated or extreme field");
     run.max_shrink.store(400, std::sync::atomic::Ordering::Relaxed);
     let sh = shards_for(run.tier);
-    run.prop_f("inbound", run.tier.pick(3000, 100_000), sh, inbound_case, run_case);
-    run.prop_f("core", run.tier.pick(6000, 300_000), sh, core_case, run_core);
+    run.prop_f("inbound", run.tier.pick(3000, 400000), sh, inbound_case, run_case);
+    run.prop_f("core", run.tier.pick(6000, 1200000), sh, core_case, run_core);
 }
 
 pub fn replay(run: &Run, sub: &str, case: &Value) -> Option<bool> {
